@@ -143,8 +143,8 @@ def run_cli(ctx, src, width, case, cli_dir, scopes, expect_ok):
     from pico8 import tool
     regions, _ = carts.random_regions(ctx.rng, 'sparse')
     for overwrite in (False, True):
-        p1 = os.path.join(cli_dir, 'c.p8')
-        pf = os.path.join(cli_dir, 'c_fmt.p8')
+        p1 = os.path.join(cli_dir, ambient.BASE[0] + '.p8')
+        pf = os.path.join(cli_dir, ambient.BASE[0] + '_fmt.p8')
         for f in (p1, pf):
             if os.path.exists(f):
                 os.remove(f)
